@@ -387,10 +387,11 @@ Proof. split; reflexivity. Qed.
 
 (* ====================================================================== instantiation on /repo *)
 (* the routine as it is in /repo now: retry bound and structure regenerated from the source *)
-Definition the_cfg (t : list (nat * nat * nat)) (ssize rl : nat) : cfg :=
+Definition the_xcfg (t : list (nat * nat * nat)) (tg : list nat) (ssize rl : nat) : cfg :=
   mkC t ssize SrcFacts.snapshot_retries rl
       SrcFacts.snapshot_header_check_adjacent SrcFacts.snapshot_slot_check_adjacent
-      SrcFacts.snapshot_capture_to_check_no_call.
+      SrcFacts.snapshot_capture_to_check_no_call tg SrcFacts.snapshot_blocks_from_accepted.
+Definition the_cfg (t : list (nat * nat * nat)) (ssize rl : nat) : cfg := the_xcfg t [] ssize rl.
 
 (* fails to type-check as soon as one of the three structural facts is false *)
 Lemma the_flags t ssize rl : flags_ok (the_cfg t ssize rl).
@@ -470,14 +471,14 @@ Proof. vm_compute. split; reflexivity. Qed.
    (depth 1) with the stack length of lasti 20 ... *)
 Definition ex_s2' := mkT 20 (Some 3) [6; 7; 8].
 Example ex_F13_without_header_check :
-  let c := mkC ex_tbl 8 10 40 false true true in
+  let c := mkC ex_tbl 8 10 40 false true true [] true in
   let '(o, g, _) := run c (env_of [(0, P1, Goto ex_s2'); (0, P2, Goto ex_s1)]) no_garbage ex_w in
   o = OOk 10 [5; STALE; STALE] /\ nretry g = 0.
 Proof. vm_compute. split; reflexivity. Qed.
 (* ... and with a switch point between pointer capture and header read a returning frame leaves
    the header reads with a dangling pointer *)
 Example ex_F15_without_atomic_capture :
-  let c := mkC ex_tbl 8 10 40 true true false in
+  let c := mkC ex_tbl 8 10 40 true true false [] true in
   let '(_, g, _) := run c (env_of [(0, P1b, Ret)]) no_garbage ex_w in
   stale_hdr g = 1.
 Proof. vm_compute. reflexivity. Qed.
@@ -631,3 +632,48 @@ Example ex_py310 :
                              [RWord 0; RWord 1; RWord 2; RWord 3; RWord 4; RDeref 0 11; RDeref 1 12])
   /\ (forall b, In b (f_blocks ex_f310) -> b_level b <= f_depth ex_f310).
 Proof. split; [reflexivity|]. simpl. intros b [<-|[<-|[<-|[]]]]; simpl; lia. Qed.
+
+(* ====================================================================== FrameDetails.blocks *)
+(* The blocks that inspect_frame returns are computed from the ACCEPTED position: whatever the target
+   does at switch point P6 (between acceptance and the walk over the exception table) or anywhere
+   else, the position handed to the walk is the lasti_before of the accepted attempt, the blocks are
+   those of that position, and the stack is the consistent snapshot of the same position. *)
+Lemma blocks_of_accepted c d env garb w :
+  flags_ok c -> blk_from_accepted c = true -> wf_env c d env -> wf_world c d w ->
+  forall L st g w6 bp bl, inspect c env garb w = (OOk L st, g, w6, (bp, bl)) ->
+  bp = L /\ bl = blocks_at c L /\
+  exists pre rs, reads g = pre ++ rs /\ consistent_snapshot c d L st rs.
+Proof.
+  intros Hf Hb He Hw L st g w6 bp bl H. unfold inspect in H.
+  destruct (run c env garb w) as [[o g'] w'] eqn:Er.
+  pose proof (snapshot_consistent_or_rejected c d env garb w Hf He Hw o g' w' Er) as P.
+  destruct o; try discriminate. rewrite Hb in H. inversion H; subst.
+  split; [reflexivity|]. split; [reflexivity|]. destruct P as (_ & _ & P). exact P.
+Qed.
+
+Lemma the_xflags t tg ssize rl : flags_ok (the_xcfg t tg ssize rl) /\ blk_from_accepted (the_xcfg t tg ssize rl) = true.
+Proof. repeat split; reflexivity. Qed.
+
+Lemma C07_blocks_inst : forall t tg ssize rl d env garb w,
+  wf_env (the_xcfg t tg ssize rl) d env -> wf_world (the_xcfg t tg ssize rl) d w ->
+  forall L st g w6 bp bl, inspect (the_xcfg t tg ssize rl) env garb w = (OOk L st, g, w6, (bp, bl)) ->
+  bp = L /\ bl = blocks_at (the_xcfg t tg ssize rl) L /\
+  exists pre rs, reads g = pre ++ rs /\ consistent_snapshot (the_xcfg t tg ssize rl) d L st rs.
+Proof.
+  intros. destruct (the_xflags t tg ssize rl) as (Hf & Hb).
+  eapply blocks_of_accepted; eauto.
+Qed.
+
+(* hypotheses met by a non-trivial input: accepted at lasti 20 (inside the handler range 16..30 whose
+   handler is at 50, itself covered by 44..60 -> 70), the target leaves for lasti 10 at P6 *)
+Definition ex_xcfg := the_xcfg [(16, 30, 2); (44, 60, 1)] [50; 70] 8 40.
+Example ex_blocks :
+  inspect ex_xcfg (env_of [(0, P6, Goto ex_s1)]) no_garbage (mkW ex_s2 OnThread)
+  = (OOk 20 [6; 7], mkG [6; 7] 2 0 [mkRd 0 true [6;7;8] 20 20 6; mkRd 1 true [6;7;8] 20 20 7] 0 0,
+     mkW ex_s1 OnThread, (20, [(70, 1); (50, 2)])).
+Proof. reflexivity. Qed.
+(* what the re-read of f_lasti would do (flag off): A's stack with B's (here: no) blocks *)
+Example ex_blocks_from_fresh_lasti :
+  let c := mkC [(16, 30, 2); (44, 60, 1)] 8 10 40 true true true [50; 70] false in
+  snd (inspect c (env_of [(0, P6, Goto ex_s1)]) no_garbage (mkW ex_s2 OnThread)) = (10, []).
+Proof. reflexivity. Qed.
